@@ -24,6 +24,17 @@ func properties() []Property {
 				{Name: "H_C04_fee", Profile: "bit", Quick: b("entries", 2, "rcpKinds", 3, "feeKinds", 4), Thorough: b("entries", 6, "rcpKinds", 5, "feeKinds", 4), Covers: []string{"refused", "accepted"}},
 				{Name: "H_C04_compute_amount", Profile: "bit", Covers: []string{"overflow", "non-positive", "positive"}},
 			}},
+		{ID: "C08", Assumptions: []string{aSummaries, aModels, aE1, aE3, "pre-state: any subset of paused protocols and up to prePairs arbitrary paused pairs (one inductive step covers histories of any length)", "counterparty strings of at most strlen bytes; batches of 1..batch ids (empty batches pause the whole protocol and are outside the claim); probe domains < 1000"},
+			Harnesses: []HarnessSpec{
+				{Name: "H_C08_step", Profile: "bit", Quick: b("strlen", 1, "prePairs", 1, "batch", 2), Thorough: b("strlen", 2, "prePairs", 2, "batch", 3), Covers: []string{"pre-state-built", "message-accepted", "message-refused"}, TimeoutQuick: 240},
+				{Name: "H_C08_enforce", Profile: "bit", Quick: b("strlen", 2, "prePairs", 1), Thorough: b("strlen", 3, "prePairs", 2), Covers: []string{"pre-state-built", "probe-paused", "probe-not-paused"}},
+				{Name: "H_C08_history", Profile: "bit", Quick: b("strlen", 1, "steps", 2, "batch", 1), Thorough: b("strlen", 2, "steps", 3, "batch", 2), Covers: []string{"message-accepted", "message-refused", "probe-paused", "probe-not-paused"}, TimeoutQuick: 240},
+				{Name: "H_C08_batch_limit", Profile: "bit"},
+			}},
+		{ID: "C09", Assumptions: []string{aSummaries, aModels, aE1, "pre-state: any subset of {FEE, SWAP} paused; a recording stub controller is registered under ACTION_SWAP so that both identifiers are routable"},
+			Harnesses: []HarnessSpec{
+				{Name: "H_C09_actions", Profile: "bit", Quick: b("steps", 2), Thorough: b("steps", 4), Covers: []string{"message-accepted", "message-refused", "probe-with-paused-action", "probe-unaffected"}},
+			}},
 		{ID: "C18", Assumptions: []string{aSummaries, aModels, aE1, "the passthrough payload is an all-zero byte slice whose LENGTH is symbolic in [0, maxlen] (the hook reads only len)"},
 			Harnesses: []HarnessSpec{
 				{Name: "H_C18_limit", Profile: "bit", Quick: b("updates", 2, "maxlen", 70000), Thorough: b("updates", 3, "maxlen", 5000000), Covers: []string{"over-limit", "within-limit", "params-unreadable"}},
